@@ -62,7 +62,8 @@ Select(ev) ==
                              IF IsNaN(f, lo) \/ IsNaN(f, hi) \/ ~OrdLe(f, lo, hi) THEN VSkip
                              ELSE IF IsNaN(f, x) THEN VBool(~IsNaN(f, r))
                              ELSE LET e == IF OrdLe(f, x, lo) THEN lo ELSE IF OrdLe(f, hi, x) THEN hi ELSE x IN VBool(ZEq(OrdC(f, r), OrdC(f, e)))
-      [] ev.op = "step" -> IF AnyNaN(ev) THEN VSkip
+      \* GLSL: "0.0 is returned if x < edge, and 1.0 is returned otherwise": an unordered pair is an "otherwise"
+      [] ev.op = "step" -> IF AnyNaN(ev) THEN VBool(HasValue(f, r, DFromInt(1)))
                            ELSE VBool(HasValue(f, r, DFromInt(IF ZLt(OrdC(f, A(ev, 2)), OrdC(f, A(ev, 1))) THEN 0 ELSE 1)))
       [] ev.op = "mixb" -> VBool(r = (IF BoolOf(ev.a[3][1]) THEN A(ev, 2) ELSE A(ev, 1)))
 
